@@ -99,6 +99,12 @@ check("C20", "model_checking",
   "Hook: sync.Pool of internal/memory replaced by the deterministic vsync.Pool (overlay, build tag verif). Inputs beyond the 7 listed and histories longer than H are not covered; concurrent use of one codec value is part of C15.",
   "DESIGN.md §2 C20")
 
+check("C16", "exploration",
+  "bounded exhaustive enumeration of hand-over kind x file shape x every sequence of disturbing operations up to depth D, executed with poison-on-release and always-reuse pools (verif hooks) so that any alias into recycled memory changes deterministically; oracle = deep snapshot at hand-over time",
+  "12 hand-over kinds on both sides of the API (Go values from Read[T] and from GenericReader.Read into a reused batch with shallow copies retained; parquet Rows uncloned and cloned, sync and async; cloned page Values; the caller's rows passed to GenericWriter.Write, Writer.WriteRows, RowBuffer.WriteRows, SortingWriter.WriteRows, GenericBuffer.Write+sort, FilterRowWriter.WriteRows) x 5 file shapes x ALL sequences of <=2 (3 thorough) operations from {read more into the same batch, SeekToRow(0)+read, Reset, Close, read another file, write another file, GC}; after every step the held values must equal the snapshot taken when they were handed over (uncloned Rows only until the next call on their reader).",
+  "Hooks: verifPoison inserted at the top of putSliceToPool and the deterministic LIFO pool (overlay, build tag verif). Depth <=3; unrelated activity runs in the same goroutine (other goroutines: C15).",
+  "DESIGN.md §2 C16")
+
 NOT_YET = "check not built yet in this round (design in DESIGN.md §2); not claimed until its check exists"
 
 m = {
